@@ -188,16 +188,16 @@ func toValues(kind Kind, key string, input string) ([]string, error) {
 		return nil, fmt.Errorf("unrecognized requirement '%s' for rule %s", key, kind)
 	}
 
-	res := tokenToSlice(input)
-	for idx := range res {
-		res[idx] = strings.Trim(res[idx], `" `)
-		if res[idx] == "" {
-			res = slices.Delete(res, idx, idx+1)
+	res := []string{}
+	for _, value := range tokenToSlice(input) {
+		value = strings.Trim(value, `" `)
+		if value == "" {
 			continue
 		}
-		if !slices.Contains(req, res[idx]) {
-			return nil, fmt.Errorf("unrecognized %s: %s", key, res[idx])
+		if !slices.Contains(req, value) {
+			return nil, fmt.Errorf("unrecognized %s: %s", key, value)
 		}
+		res = append(res, value)
 	}
 	slices.SortFunc(res, func(i, j string) int {
 		return requirementsWeights[kind][key][i] - requirementsWeights[kind][key][j]
